@@ -256,8 +256,8 @@ class ScalarRoundTrip(Harness):
         return 0, 0xFFFE  # 0xFFFF is the all-ones sentinel (recorded under C17)
 
     def _run(self, M, default, crc, mkx):
-        cfg = {k: v for k, v in self.cfg.items() if k != "label"}
-        inv, fake = models.make(M, cfg, crc=crc)
+        cfg = {k: v for k, v in self.cfg.items() if k not in ("label", "transport")}
+        inv, fake = models.make(M, cfg, crc=crc, transport=self.cfg.get("transport", "udp"))
         info = range(0x88b8, 0x88b8 + 0x21) if cfg["family"] == "ET" else range(0x7531, 0x7531 + 0x28)
         fake.regs = {a: v for a, v in fake.regs.items() if a in info}
         fake.default = default
@@ -314,6 +314,9 @@ class ScalarRoundTrip(Harness):
 SCALAR_CFGS = E2E_CFGS[:1] + E2E_CFGS[4:5] + [
     {"family": "DT", "serial": "9010KDTU218W0001", "refuse": [], "label": "DT three phase"},
     {"family": "DT", "serial": "9010KDSN218W0001", "refuse": [], "label": "DT single phase"},
+    # the same over Modbus/TCP (other command classes and validator)
+    {"family": "ET", "serial": "9010KETU218W0001", "rated_power": 10000, "refuse": [], "transport": "tcp", "label": "ET eco v2 (tcp)"},
+    {"family": "DT", "serial": "9010KDTU218W0001", "refuse": [], "transport": "tcp", "label": "DT three phase (tcp)"},
 ]
 
 
